@@ -1,12 +1,12 @@
 package main
 
 import (
-	"strconv"
-	"regexp"
 	"fmt"
 	"go/ast"
 	"go/token"
 	"go/types"
+	"regexp"
+	"strconv"
 	"strings"
 )
 
@@ -424,10 +424,13 @@ func g12HasUndefined(c *Ctx) {
 
 // G13 — exportedness and import paths.
 // (a) (*Field).Private is tabulated over the classes of first characters that Go's definition of an exported identifier
-//     distinguishes (upper-case letter; lower-case letter; underscore; caseless letter): Private(name) == !token.IsExported(name).
-//     The plugins choose between direct access and reflect/unsafe access to a field of an imported struct with it.
+//
+//	distinguishes (upper-case letter; lower-case letter; underscore; caseless letter): Private(name) == !token.IsExported(name).
+//	The plugins choose between direct access and reflect/unsafe access to a field of an imported struct with it.
+//
 // (b) unvendor strips only whole `vendor` path elements: every search needle that mentions "vendor" is anchored by a
-//     leading "/" or is used with HasPrefix.
+//
+//	leading "/" or is used with HasPrefix.
 func g13Fields(c *Ctx) {
 	fi := c.Repo.lookup("derive.(*Field).Private")
 	if fi == nil {
